@@ -449,6 +449,94 @@ func runProxyOverlap(gz bool, rounds int) string {
 	return ""
 }
 
+// proxyFailureStreak: one assigned target is scraped several times in a row, failing each time for a
+// different reason; after every scrape the target's status has to show the outcome of *that* scrape
+// (C13: "the target's status shows health down with the error; a successful scrape shows health up
+// with no error")
+func proxyFailureStreak(res *Result) {
+	lg := quietLog()
+	cfg := prom.NewConfigManager()
+	sm := scrape.New(false, lg)
+	cfg.AddReloadCallbacks(sm.ApplyConfig)
+	if err := cfg.ReloadFromRaw([]byte(sidecarCfg)); err != nil {
+		return
+	}
+	type step struct {
+		kind  string
+		token string // what the recorded error has to mention ("" = no error)
+	}
+	steps := []step{{"ok", ""}, {"503", "503"}, {"cut", "eof"}, {"stopped", "stopped by test"}, {"refused", "connection refused"}, {"404", "404"}, {"ok", ""}, {"refused", "connection refused"}, {"cut", "eof"}}
+	cur := ""
+	payload := mkPayload("many", 400, NewRng(11))
+	rt := &scriptedRT{}
+	install := func() {
+		if ji := sm.GetJob("job0"); ji != nil {
+			ji.Cli = &http.Client{Transport: rt}
+		}
+	}
+	rt.f = func(req *http.Request) (*http.Response, error) {
+		h := http.Header{"Content-Type": []string{"text/plain; version=0.0.4; charset=utf-8"}}
+		switch cur {
+		case "refused":
+			return nil, fmt.Errorf("scripted: connection refused")
+		case "503":
+			return &http.Response{StatusCode: 503, Status: "503 x", Header: h, Body: io.NopCloser(bytes.NewReader(nil)), Request: req}, nil
+		case "404":
+			return &http.Response{StatusCode: 404, Status: "404 x", Header: h, Body: io.NopCloser(bytes.NewReader(nil)), Request: req}, nil
+		case "cut":
+			return &http.Response{StatusCode: 200, Status: "200 x", Header: h, Body: &scriptedBody{data: payload, sizes: []int{64}, cutAt: 130, cutErr: "unexpected EOF"}, Request: req}, nil
+		}
+		return &http.Response{StatusCode: 200, Status: "200 x", Header: h, Body: &scriptedBody{data: payload, sizes: []int{64}, cutAt: -1}, Request: req}, nil
+	}
+	install()
+	const hash = uint64(4243)
+	st := target.NewScrapeStatus(7, -1)
+	status := map[uint64]*target.ScrapeStatus{hash: st}
+	proxy := sidecar.NewProxy(sm.GetJob, func() map[uint64]*target.ScrapeStatus { return status }, cfg.ConfigInfo, prometheus.NewRegistry(), lg)
+	srv := httptest.NewUnstartedServer(proxy)
+	srv.Config.ErrorLog = log.New(io.Discard, "", 0)
+	srv.Start()
+	defer srv.Close()
+	url := fmt.Sprintf("%s/metrics?_jobName=job0&_hash=%d&_scheme=http", srv.URL, hash)
+	cli := &http.Client{Timeout: 10 * time.Second, Transport: &http.Transport{DisableCompression: true, DisableKeepAlives: true}}
+	history := []string{}
+	for i, sp := range steps {
+		cur = sp.kind
+		if sp.kind == "stopped" {
+			_ = cfg.UpdateExtraConfig(prom.ExtraConfig{StopScrapeReason: "stopped by test"})
+		} else {
+			_ = cfg.UpdateExtraConfig(prom.ExtraConfig{})
+		}
+		install() // a changed extra configuration rebuilds the job objects
+		before := st.ScrapeTimes
+		if resp, err := cli.Get(url); err == nil {
+			_, _ = io.Copy(io.Discard, resp.Body)
+			_ = resp.Body.Close()
+		}
+		history = append(history, sp.kind)
+		res.Evaluations++
+		res.count("failure_streak_steps")
+		le := strings.ToLower(st.LastError)
+		bad := ""
+		switch {
+		case sp.token == "" && (st.Health != "up" || st.LastError != ""):
+			bad = fmt.Sprintf("a successful scrape leaves health %q, error %q", st.Health, st.LastError)
+		case sp.token != "" && st.Health != "down":
+			bad = fmt.Sprintf("a failed scrape (%s) leaves health %q", sp.kind, st.Health)
+		case sp.token != "" && !strings.Contains(le, sp.token):
+			bad = fmt.Sprintf("the scrape failed with %q, the status shows the error %q", sp.kind, st.LastError)
+		case st.ScrapeTimes != before+1:
+			bad = fmt.Sprintf("the scrape counter went from %d to %d", before, st.ScrapeTimes)
+		}
+		if bad != "" {
+			res.ImplViol = capViol(res.ImplViol, Violation{Property: "C13", Clause: "streak", Signature: "C13/streak",
+				What: fmt.Sprintf("scrape %d of the sequence %v of one assigned target: %s", i+1, history, bad),
+				Case: map[string]interface{}{"scenario": "failureStreak", "history": history}}, 2)
+			return
+		}
+	}
+}
+
 func runProxy(a Args) *Result {
 	res := newResult("proxy", a.seed, a.tier)
 	res.Rule = "scrapes through the real Proxy (httptest server, real HTTP client) of an in-memory target: payload kinds (empty, one line, comments/blank lines, lines the parser rejects, many lines, multi-MB in thorough), body handed out in scripted read sizes 1..64KiB+1, gzip or identity, every failure kind (unknown job, bad hash, connection error, non-200, stopped) and, for mid-body failures, every byte offset of a small body (thorough: of a 4 KiB body); plus two scrapes overlapping in time (the second starts between the first one's response headers and its body), gzip and identity; non-trivial = the scrape reaches the body; distinct by encoded case"
@@ -459,6 +547,9 @@ func runProxy(a Args) *Result {
 	}
 	if a.n > 0 {
 		n = a.n
+	}
+	if a.replay == "" && a.wants("C13") {
+		proxyFailureStreak(res)
 	}
 	var cases []*PCase
 	for i := 0; i < n; i++ {
